@@ -38,11 +38,68 @@ pub fn actor() -> u32 {
 }
 
 fn current() -> Option<Arc<dyn Sink>> {
-    SINK.read().expect("verif sink").clone()
+    if let Some(sink) = SINK.read().expect("verif sink").clone() {
+        return Some(sink);
+    }
+    env_sink()
+}
+
+/// Recorder used when no harness installed a sink: with `RIP_VERIF_TRACE_DIR` set every
+/// point is appended as one JSON line to `<dir>/<pid>.ndjson` (one file per process, lines in
+/// the order the points were passed). It never blocks and never injects a failure.
+struct FileSink {
+    file: std::sync::Mutex<std::fs::File>,
+}
+
+impl Sink for FileSink {
+    fn point(&self, name: &'static str, actor: u32, fields: Value) -> bool {
+        use std::io::Write;
+        let mut rec = serde_json::json!({"ev": name, "actor": actor});
+        if let (Some(obj), Some(f)) = (rec.as_object_mut(), fields.as_object()) {
+            for (k, v) in f {
+                obj.insert(k.clone(), v.clone());
+            }
+        }
+        let mut line = rec.to_string();
+        line.push('\n');
+        if let Ok(mut file) = self.file.lock() {
+            let _ = file.write_all(line.as_bytes());
+        }
+        false
+    }
+}
+
+static ENV_SINK: std::sync::OnceLock<Option<Arc<dyn Sink>>> = std::sync::OnceLock::new();
+
+fn env_sink() -> Option<Arc<dyn Sink>> {
+    ENV_SINK
+        .get_or_init(|| {
+            use std::io::Write;
+            let dir = std::env::var_os("RIP_VERIF_TRACE_DIR")?;
+            let path = std::path::Path::new(&dir).join(format!("{}.ndjson", std::process::id()));
+            let mut file = std::fs::OpenOptions::new()
+                .create(true)
+                .append(true)
+                .open(path)
+                .ok()?;
+            let args: Vec<String> = std::env::args().collect();
+            let head = serde_json::json!({"ev": "proc", "actor": 0, "args": args});
+            let _ = file.write_all(format!("{head}\n").as_bytes());
+            Some(Arc::new(FileSink {
+                file: std::sync::Mutex::new(file),
+            }) as Arc<dyn Sink>)
+        })
+        .clone()
+}
+
+/// True when the environment recorder is active: points that carry whole frames are
+/// only evaluated then.
+pub fn frames_wanted() -> bool {
+    SINK.read().expect("verif sink").is_none() && env_sink().is_some()
 }
 
 pub fn enabled() -> bool {
-    SINK.read().expect("verif sink").is_some()
+    current().is_some()
 }
 
 pub fn point(name: &'static str, fields: impl FnOnce() -> Value) {
